@@ -4,6 +4,28 @@ import "verif/internal/eng"
 
 func init() {
 	register(&Property{
+		ID: "C43",
+		Explanation: "Decides the delivery discipline of pack streaming, not offsets arithmetic: (stream-delivery) in streamPackPart the callback receives Handle/Plaintext/Err of the iterator's value; with a fallback loader configured, a blob the iterator reports as damaged reaches the callback only after loadBlobFn was tried for the same handle, and Err is cleared only on that load's success edge together with Plaintext = the fallback's bytes; after a failed download each requested blob is loaded through loadBlobFn (only if non-nil, only after beLoad failed) and delivered with exactly that load's bytes and error, and the partially filled buffer is never decoded; an error returned by the callback stops further deliveries and is returned; (chunk-partition) streamPack sorts the request, hands streamPackPart sub-slices blobs[lowerIdx:i] / blobs[lowerIdx:] of it, and lowerIdx only takes the values 0 and the upper bound of the part just streamed, so the parts are consecutive; a failing part aborts; (iterator-consumes-one) packBlobIterator.Next removes exactly the first pending entry on every non-EOF path and reports EOF only when none is left; (all-copies-tried) loadBlob moves on to the next stored copy after a failed read or a damaged copy without returning, and LoadBlob runs a second round over all index copies after dropping cached packs; nil-only-after-hash (C02) covers the plaintext check. Not decided: gap/size thresholds, and that the callback is invoked exactly once per blob when the callback itself misbehaves.",
+		Assumptions: commonAssumptions,
+		Technique:   "static analysis: call-site classification + path-sensitive reachability with nil-ness facts + phi-edge analysis of the chunk index (go/ssa)",
+		Run: func(c *eng.Ctx) {
+			ruleStreamDelivery(c)
+			ruleChunkPartition(c)
+			ruleIteratorConsumes(c)
+			ruleAllCopiesTried(c)
+		},
+		Controls: []Control{
+			{Name: "deliver-before-fallback", File: "internal/repository/repository.go",
+				Old: "		if val.Err != nil && loadBlobFn != nil {", New: "		if val.Err != nil && loadBlobFn != nil && len(blobs) > 1 {", Rule: "stream-delivery"},
+			{Name: "fallback-error-hidden", File: "internal/repository/repository.go",
+				Old: "			if ierr == nil {\n				// success\n				val.Plaintext = buf\n				val.Err = nil\n			}", New: "			val.Plaintext = buf\n			val.Err = nil\n			_ = ierr", Rule: "stream-delivery"},
+			{Name: "chunk-restarts-one-early", File: "internal/repository/repository.go",
+				Old: "			lowerIdx = i\n", New: "			lowerIdx = i - 1\n", Rule: "chunk-partition"},
+			{Name: "first-damaged-copy-is-final", File: "internal/repository/repository.go",
+				Old: "			debug.Log(\"error decoding blob %v: %v\", blob, err)\n			lastError = err\n			continue", New: "			debug.Log(\"error decoding blob %v: %v\", blob, err)\n			return nil, err", Rule: "all-copies-tried"},
+		},
+	})
+	register(&Property{
 		ID: "C42",
 		Explanation: "Decides the sharing discipline and the completeness plumbing of tree traversals, not exactly-once processing under every schedule: (visited-set) at every StreamTrees call site (FindUsedBlobs, checker.Structure, copyTree) the skip function tests and inserts the handle {ID: treeID, Type: TreeBlob} into one set, inserts on every path, returns the result of the test; if the worker side (process literal, its nested literals, sibling closures it calls and same-package callees) touches the same set, the test and the insert lie in one critical section of a mutex that every worker-side access holds too; FindUsedBlobs inserts every element of node.Content of file nodes as a DataBlob handle; (traversal-complete) subtreesCollector cannot move to the next node of a directory with a subtree ID without recording it; filterTrees appends every non-null subtree ID it is handed to the backlog, asks skip about the popped tree before choosing a loader queue; loadTreeWorker passes LoadTree's error to process, reports a tree to the scheduler only after process returned nil and aborts with the error otherwise; used-blobs-errors (C09) covers the callers' error handling. Not decided: the scheduler's termination counting, huge-tree routing, and exactly-once processing when two roots share a subtree that is in flight.",
 		Assumptions: commonAssumptions,
